@@ -1,4 +1,4 @@
-(* [deepened: mgm_refines_rounds / mgm_async_monotone are now theorems, see 'deepening' below] *)
+(* [deepened: mgm_refines_rounds / mgm_async_monotone and, for MGM2, mgm2_refines_rounds / mgm2_async_* are theorems, see the deepening sections below] *)
 (* Prop_C03.v -- C03: MGM (and MGM2) never worsen the global cost between cycles.
    Only statements; each closed by an exact lemma from P_Mgm / P_Mgm2.
 
@@ -193,4 +193,90 @@ Example c03_async_nonvacuous :
   /\ map (fun n => (w_running (nodes c1 n), m_cycle (w_st (nodes c1 n)), held c1 n)) [0; 1; 2]
     = [(true, 2, 0); (true, 2, 1); (true, 2, 0)]
   /\ gcost ex_d (held c0) = 12 /\ gcost ex_d (held c1) = 6.
+Proof. vm_compute. repeat split; reflexivity. Qed.
+
+(* ------------------------------------------------------------------ deepening 3 (P_Mgm2pA/B/C.v)
+   mgm2_refines_rounds is now a THEOREM.  The MGM2 barrier invariant (P_Mgm2x..z.v, C07) is extended with PAYLOADS:
+   in every reachable configuration of the asynchronous MGM2 handlers (M_Mgm2x.mgm2_proto_f, any schedule of
+   starts and deliveries, FIFO or not, any fuel >= 10 * degree + 2 for the nested re-dispatch), every started
+   computation in cycle c holds exactly what the round function M_Mgm2r.mgm2_next computes from the reference
+   assignment / draws of round c - 1 ([RA2] / [RO2] = iteration of mgm2_next / mgm2_next_orc from the start
+   values, every node spending its own draws): value, neighbour values, offers received, local cost, offerer
+   flag, partner, unilateral gain / value, commitment, announced gain, potential value, go flag, remaining draws
+   ([pay]); and every value / offer / answer / gain / go message in flight, buffered before start or postponed is
+   the reference message of the cycle read off the sender's position ([refmsg] at index [sidx]).
+   Hence the guarded round-level MGM2 theorems above ARE statements about real executions at cycle boundaries. *)
+From PyDcop Require Import M_Mgm2x P_Mgm2y P_Mgm2z P_Mgm2pA P_Mgm2pB P_Mgm2pC.
+
+Theorem mgm2_refines_rounds : forall d stop thr favor orc fuel cf n, fuel_ok d fuel ->
+  reachable (mgm2_proto_f d stop thr favor orc fuel) cf -> w_running (nodes cf n) = true ->
+  t_value (w_st (nodes cf n)) = Some (RA2 d thr favor orc (Z.to_nat (cyc2 cf n - 1)) n).
+Proof. exact mgm2_refines_rounds_closed. Qed.
+
+(* the whole state of a computation, not only its value *)
+Theorem mgm2_payload_invariant : forall d stop thr favor orc fuel cf n, fuel_ok d fuel ->
+  reachable (mgm2_proto_f d stop thr favor orc fuel) cf -> w_running (nodes cf n) = true -> nbrs d n <> [] ->
+  pay d thr favor (AC d thr favor orc (cyc2 cf n)) (OC d thr favor orc (cyc2 cf n)) n (w_st (nodes cf n)).
+Proof. exact mgm2_payload_invariant_closed. Qed.
+
+(* every pending message (pre-start buffer ++ channel ++ postponed lists of the receiver) *)
+Theorem mgm2_messages_refine : forall d stop thr favor orc fuel cf x y m, fuel_ok d fuel ->
+  reachable (mgm2_proto_f d stop thr favor orc fuel) cf -> In m (pend cf x y) ->
+  refmsg d thr favor (AC d thr favor orc (sidx (w_st (nodes cf x)) m (cyc2 cf y)))
+                     (OC d thr favor orc (sidx (w_st (nodes cf x)) m (cyc2 cf y))) x y m.
+Proof. exact mgm2_messages_refine_closed. Qed.
+
+(* C03 for asynchronous MGM2 executions, cycles in which no computation commits to a coordinated move
+   ([at_boundary2 d cf j]: every variable started, those with a neighbour have completed exactly j cycles): between
+   ANY reachable configuration at boundary j and ANY at boundary j+1 the global cost does not get worse ... *)
+Theorem mgm2_async_unilateral_monotone : forall d stop thr favor orc fuel cf1 cf2 j, fuel_ok d fuel -> wf_dcop d = true ->
+  reachable (mgm2_proto_f d stop thr favor orc fuel) cf1 -> reachable (mgm2_proto_f d stop thr favor orc fuel) cf2 ->
+  at_boundary2 d cf1 j -> at_boundary2 d cf2 (S j) ->
+  (forall n, In n (ids d) -> r2_committed d thr favor (RA2 d thr favor orc j) (RO2 d thr favor orc j) n = false) ->
+  if d_max d then gcost d (held2 cf1) <= gcost d (held2 cf2) else gcost d (held2 cf2) <= gcost d (held2 cf1).
+Proof. exact mgm2_async_unilateral_monotone_closed. Qed.
+
+(* ... and no two constraint-sharing variables both changed their value *)
+Theorem mgm2_async_unilateral_movers : forall d stop thr favor orc fuel cf1 cf2 j n m, fuel_ok d fuel -> wf_dcop d = true ->
+  reachable (mgm2_proto_f d stop thr favor orc fuel) cf1 -> reachable (mgm2_proto_f d stop thr favor orc fuel) cf2 ->
+  at_boundary2 d cf1 j -> at_boundary2 d cf2 (S j) ->
+  (forall n, In n (ids d) -> r2_committed d thr favor (RA2 d thr favor orc j) (RO2 d thr favor orc j) n = false) ->
+  In n (ids d) -> In m (ids d) -> held2 cf2 n <> held2 cf1 n -> held2 cf2 m <> held2 cf1 m -> In m (nbrs d n) -> False.
+Proof. exact mgm2_async_unilateral_movers_closed. Qed.
+
+(* cycles with a coordinated move: when exactly the two partners of the accepted offer (vo, vp) of o to p changed
+   their value, the global cost moved by - announced gain + current cost of the constraints p shares with o
+   + p's own cost of its new value (finding C03-mgm2-coordinated-gain, now about real executions; combine with
+   mgm2_coordinated_gain_error / mgm2_coordinated_worsening_bound) *)
+Theorem mgm2_async_pair_move_cost : forall d stop thr favor orc fuel cf1 cf2 j p o vo vp, fuel_ok d fuel -> wf_dcop d = true ->
+  reachable (mgm2_proto_f d stop thr favor orc fuel) cf1 -> reachable (mgm2_proto_f d stop thr favor orc fuel) cf2 ->
+  at_boundary2 d cf1 j -> at_boundary2 d cf2 (S j) ->
+  r2_acc d thr favor (RA2 d thr favor orc j) (RO2 d thr favor orc j) p = Some (vo, vp, o) ->
+  In o (ids d) -> In p (ids d) -> held2 cf2 o <> held2 cf1 o -> held2 cf2 p <> held2 cf1 p ->
+  (forall v, In v (ids d) -> v <> o -> v <> p -> held2 cf2 v = held2 cf1 v) ->
+  gcost d (held2 cf2) = gcost d (held2 cf1) - r2_pgain d thr favor (RA2 d thr favor orc j) (RO2 d thr favor orc j) p
+                        + cost_at (shared_cons d p o) (RA2 d thr favor orc j) + vcost d p vp.
+Proof. exact mgm2_async_pair_move_cost_closed. Qed.
+
+(* the hypotheses are met by real runs.  (1) ex2_d, stop_cycle 2, every node draws 0 for its start value and 700
+   (not an offerer) in its first cycle: after the starts the run is at boundary 0, after "deliver round-robin" at
+   boundary 1; nobody commits in round 0; the cost goes 12 -> 6.  (2) the refutation instance w03: boundary 0 / 1,
+   v0 accepts the offer (1, 1) of v1, the cost goes 5 -> 6 *)
+Definition ex2_orc : node -> list Z := fun _ => [0; 700; 0; 0].
+Definition ex2_s0 : list (@action) := [Start 0; Start 1; Start 2].
+Definition ex2_s1 : list (@action) :=
+  ex2_s0 ++ List.concat (repeat [Deliver 0 1; Deliver 1 0; Deliver 1 2; Deliver 2 1] 8%nat).
+Example c03_mgm2_async_nonvacuous :
+  (let P := mgm2_proto_f ex2_d 2 500 0 ex2_orc 60 in
+   let c0 := fst (run P ex2_s0) in let c1 := fst (run P ex2_s1) in
+   at_boundary2b ex2_d c0 0 = true /\ at_boundary2b ex2_d c1 1 = true
+   /\ map (r2_committed ex2_d 500 0 (RA2 ex2_d 500 0 ex2_orc 0) (RO2 ex2_d 500 0 ex2_orc 0)) [0; 1; 2] = [false; false; false]
+   /\ map (held2 c0) [0; 1; 2] = [0; 0; 0] /\ map (held2 c1) [0; 1; 2] = [0; 1; 0]
+   /\ gcost ex2_d (held2 c0) = 12 /\ gcost ex2_d (held2 c1) = 6)
+  /\ (let P := mgm2_proto_f w03_d 2 500 0 (orc_of w03_orc) 60 in
+      let c0 := fst (run P [Start 1; Start 0]) in let c1 := fst (run P w03_sched) in
+      at_boundary2b w03_d c0 0 = true /\ at_boundary2b w03_d c1 1 = true
+      /\ r2_acc w03_d 500 0 (RA2 w03_d 500 0 (orc_of w03_orc) 0) (RO2 w03_d 500 0 (orc_of w03_orc) 0) 0 = Some (1, 1, 1)
+      /\ map (held2 c0) [0; 1] = [0; 0] /\ map (held2 c1) [0; 1] = [1; 1]
+      /\ gcost w03_d (held2 c0) = 5 /\ gcost w03_d (held2 c1) = 6).
 Proof. vm_compute. repeat split; reflexivity. Qed.
